@@ -93,11 +93,14 @@ def make (c):
     # some wires tapered (a tapered wire can be reversed - taper end 1 <-> 2 - but not split)
     srcpts = [np.array (x ['at']) for x in spec ['src'] if 'at' in x]
     for g in spec ['geo']:
-        if not sym and g ['k'] == 'w' and g ['n'] >= 3 and rng.random () < 0.15:
+        if not sym and g ['k'] == 'w' and g ['n'] >= 3 and rng.random () < 0.2:
             p1, p2 = np.array (g ['p1']), np.array (g ['p2'])
             on = any (np.linalg.norm (np.cross (p2 - p1, x - p1)) < 1e-9 * np.linalg.norm (p2 - p1) ** 2 and -1e-9 <= (x - p1) @ (p2 - p1) / ((p2 - p1) @ (p2 - p1)) <= 1 + 1e-9 for x in srcpts)
             if not on:      # sources are placed by location on the equal segmentation
                 g ['taper'] = [int (rng.integers (1, 4)), float (8.5 * g ['r']), None]
+                if c ['i'] % 2:
+                    # with a maximum that binds (1.2 .. 2.5 equal segment lengths)
+                    g ['taper'][2] = float (np.linalg.norm (p2 - p1) / g ['n'] * (1.2 + 1.3 * ((c ['i'] * 7919) % 100) / 100.0))
     n = len (spec ['geo'])
     rd = np.random.default_rng ([c ['seed'], 61, c ['i']])
     if n >= 2 and not sym and rd.random () < 0.25 and not any (g.get ('taper') for g in spec ['geo']):
@@ -111,6 +114,10 @@ def make (c):
                         , tags = [int (x) for x in rng.permutation (n) + 1], explicit = bool (rng.random () < 0.5)
                         , split = [[int (rng.integers (0, n)), float (rng.random ())] for k in range (int (rng.integers (1, 3)))]
                         , pts = rng.normal (size = (2, 3)).tolist (), pdist = [float (rng.uniform (1.5, 4)), float (rng.uniform (4, 30))])
+    # a tapered wire is reversed in the first reversal variant (taper end 1 <-> 2)
+    for k, g in enumerate (spec ['geo']):
+        if g.get ('taper'):
+            spec ['var']['masks'][0][k] = 1
     return gen.clean (spec)
 # end def make
 
@@ -216,21 +223,56 @@ def variant (spec, mask = None, perm = None, tags = None, split = None):
     return s
 # end def variant
 
+import contextlib
+
+@contextlib.contextmanager
+def own_terms_only ():
+    """ experiment: Mininec.psi with the exact-kernel criterion confined to own terms (the observation point lies
+        on the source (half) segment: d0 + d3 equals its length) """
+    MM   = common.repo ()
+    orig = MM.Mininec.psi
+    def psi (self, vec2, vecv, k, scale, pidx, exact = False, fvs = 0):
+        v2, vv = np.asarray (vec2, float), np.asarray (vecv, float)
+        d0 = np.linalg.norm (v2, axis = -1)
+        d3 = np.linalg.norm (vv, axis = -1)
+        L  = np.linalg.norm (vv - v2, axis = -1)
+        own = np.atleast_1d (d0 + d3 <= L * (1 + 1e-9))
+        ex  = np.logical_and (np.atleast_1d (exact), own)
+        return orig (self, vec2, vecv, k, scale, pidx, exact = ex, fvs = fvs)
+    MM.Mininec.psi = psi
+    try:
+        yield
+    finally:
+        MM.Mininec.psi = orig
+# end def own_terms_only
+
 def exact_on_neighbour (m):
-    """ True if the midpoint of some segment lies within (d0 + d3) <= 1.1 lengths of ANOTHER segment of the same or
-        a connected thick wire (radius above 1e-4 wavelengths): there the program integrates half of that segment
-        and doubles it, as for the segment's own term, and which half depends on the direction of the wire """
+    """ True if an observation point of the matrix fill (a segment end = pulse point, or a segment midpoint) that
+        does not lie on segment S itself satisfies the program's criterion for the on-wire (exact) kernel of S,
+        (d0 + d3) / length (S) <= 1.1 with d0, d3 the distances to the ends of S or of one of its halves, on the
+        same or a connected object. The criterion is meant for a segment's own term; where it catches a
+        neighbour the result depends on the direction of the wires (thick wires: half of S integrated and
+        doubled) or on which objects count as connected (thin wires: own-term formula or quadrature).
+    """
     segs = [(g, sg) for g in m.geo for sg in g.segments]
+    pts  = []
+    for g, sg in segs:
+        a, b = np.asarray (sg.p1, float), np.asarray (sg.p2, float)
+        pts += [(g, a), (g, b), (g, (a + b) / 2)]
     for ga, sa in segs:
-        if ga.r <= m.srm:
-            continue
         a, b = np.asarray (sa.p1, float), np.asarray (sa.p2, float)
-        for gb, sb in segs:
-            if sb is sa or not (gb is ga or ga.is_connected (gb)):
+        L    = sa.seg_len
+        mid  = (a + b) / 2
+        d    = (b - a) / L
+        for gb, x in pts:
+            if not (gb is ga or ga.is_connected (gb) or gb.is_connected (ga)):
                 continue
-            x = (np.asarray (sb.p1, float) + np.asarray (sb.p2, float)) / 2
-            if (np.linalg.norm (x - a) + np.linalg.norm (x - b)) / sa.seg_len <= 1.1:
-                return True
+            u = (x - a) @ d
+            if -1e-9 * L <= u <= (1 + 1e-9) * L and np.linalg.norm ((x - a) - u * d) <= 1e-9 * L:
+                continue        # on S itself
+            for s1, s2 in ((a, b), (a, mid), (mid, b)):
+                if (np.linalg.norm (x - s1) + np.linalg.norm (x - s2)) / L <= 1.1:
+                    return True
     return False
 # end def exact_on_neighbour
 
@@ -257,6 +299,10 @@ def check (c):
     if spec.get ('ratio'):
         # inside the domain the property states (joined wires), outside the modelling rules on segment ratio / radius
         why = [w for w in why if w not in ('adjacent segment ratio > 2.1', 'segment < 8 radii', 'segment < lambda/200')]
+        ok  = not why
+    elif any (g.get ('taper') for g in spec ['geo']):
+        # short segments are what tapering is for (the floor of 8.5 radii and the ratio rule at the junctions stay)
+        why = [w for w in why if w != 'segment < lambda/200']
         ok  = not why
     if not ok:
         return dict (status = 'discard', reason = 'validity: ' + why [0])
@@ -353,12 +399,36 @@ def check (c):
         return dict (status = 'discard', reason = 'no variant')
     sig = gen.signature (base, m0, extra = ['+'.join (sorted (kinds))] + (['dist-' + spec ['dist']['kind']] if spec.get ('dist') else []))
     jt = [x for x in gen.junction_clusters (m0) if len (x) > 1]
-    if viol and exact_on_neighbour (m0):
+    if viol and not spec.get ('sym') and exact_on_neighbour (m0):
         # known finding: the on-wire (exact) kernel, meant for a segment's own term, is switched on by
-        # (d0 + d3) / length <= 1.1, which the midpoint of a much shorter neighbouring segment also satisfies
-        for v in viol:
-            if v ['key'] != observe.IMP_KEY:
-                v ['key'] = 'exact-kernel-on-short-neighbour'
+        # (d0 + d3) / length <= 1.1, which points of neighbouring segments also satisfy. Classified as that finding
+        # only if the same descriptions agree once the criterion is confined to own terms (observation point on
+        # the source segment) - the experiment is made on the spot with a wrapped Mininec.psi
+        with own_terms_only ():
+            f0 = None
+            agree = True
+            for name, kw in [('base', {})] + variants:
+                if name.startswith ('reverse') and not any (kw ['mask']):
+                    continue
+                sv = variant (spec, **kw)
+                if name == 'all':
+                    k = len (sv ['geo'])
+                    sv ['geo'] = [sv ['geo'][i] for i in np.random.default_rng ([k, n, 77]).permutation (k)]
+                mv = gen.build (sv)
+                observe.solve (mv)
+                fv = observe.current_field (mv)
+                if f0 is None:
+                    f0, c0 = fv, observe.cond_number (mv)
+                    continue
+                d = observe.cmp_fields (f0, fv)
+                t = observe.tol_cond (max (c0, observe.cond_number (mv)))
+                if d is None or t is None or d > t:
+                    agree = False
+                    break
+        if agree:
+            for v in viol:
+                if v ['key'] != observe.IMP_KEY:
+                    v ['key'] = 'exact-kernel-on-short-neighbour'
     if viol and spec.get ('dist'):
         # known finding: a lossy / insulated wire on a junction of three or more wires. The deviation is classified as
         # that finding only if a loaded object takes part in such a junction and the same descriptions agree
